@@ -63,15 +63,17 @@ def ensure_extractor():
 
 
 def _extract_one(tu, flags, out, extra_args=(), root=None):
-    cmd = [EXTRACTOR, '--root=' + (root or os.path.join(REPO, 'src')), '--out=' + out + '.tmp'] + list(extra_args) + [tu, '--'] + flags
+    import threading
+    tmp = '%s.%d.%d.tmp' % (out, os.getpid(), threading.get_ident())
+    cmd = [EXTRACTOR, '--root=' + (root or os.path.join(REPO, 'src')), '--out=' + tmp] + list(extra_args) + [tu, '--'] + flags
     r = subprocess.run(cmd, stdout=subprocess.PIPE, stderr=subprocess.STDOUT, universal_newlines=True)
-    if r.returncode != 0 or not os.path.isfile(out + '.tmp'):
+    if r.returncode != 0 or not os.path.isfile(tmp):
         try:
-            os.remove(out + '.tmp')
+            os.remove(tmp)
         except OSError:
             pass
         return tu, False, r.stdout[-4000:]
-    os.replace(out + '.tmp', out)
+    os.replace(tmp, out)
     return tu, True, ''
 
 
@@ -83,6 +85,19 @@ def extract_all(verbose=False):
     cdir = os.path.join(CACHE, key)
     os.makedirs(cdir, exist_ok=True)
     cmds = compdb.all_commands()
+    # checks may run concurrently: one process fills a cache generation, the others wait for it
+    import fcntl
+    lock = open(os.path.join(CACHE, key + '.lock'), 'w')
+    fcntl.flock(lock, fcntl.LOCK_EX)
+    try:
+        os.makedirs(cdir, exist_ok=True)
+        return _extract_locked(cmds, cdir, key)
+    finally:
+        fcntl.flock(lock, fcntl.LOCK_UN)
+        lock.close()
+
+
+def _extract_locked(cmds, cdir, key):
     jobs = []
     result = []
     for tu, flags in cmds:
@@ -101,14 +116,20 @@ def extract_all(verbose=False):
                     errs.append((tu, msg))
         if errs:
             raise AnalysisBroken('extractor failed on %d TU(s): %s\n%s' % (len(errs), errs[0][0], errs[0][1]))
-    # prune old cache generations (keep 4 newest)
+    # prune old cache generations: keep the 6 newest, and never one that was used in the last 30 minutes (it may
+    # belong to a check that is running concurrently on another tree)
     try:
+        import time
+        os.utime(cdir, None)
         gens = sorted((os.path.getmtime(os.path.join(CACHE, d)), d) for d in os.listdir(CACHE)
                       if os.path.isdir(os.path.join(CACHE, d)))
-        os.utime(cdir, None)
-        for _, d in gens[:-4]:
-            if d != key:
+        for mt, d in gens[:-6]:
+            if d != key and time.time() - mt > 1800:
                 shutil.rmtree(os.path.join(CACHE, d), ignore_errors=True)
+                try:
+                    os.remove(os.path.join(CACHE, d + '.lock'))
+                except OSError:
+                    pass
     except OSError:
         pass
     return result, key
